@@ -89,3 +89,153 @@ func (e *Enc) ghostEffects(root *ssa.Function) map[string]bool {
 }
 
 var ghostFxCache = map[*ssa.Function]map[string]bool{}
+
+// localEscapes reports whether the address of a local cell can reach code
+// outside the function body: passed to a call, stored, sent, returned, put in an
+// interface, merged by a phi, or captured by a closure that is itself passed on.
+// Cells that do not escape cannot be written by a callee, whatever its frame
+// says, so their contents survive a "modifies heaps" havoc.
+func localEscapes(a *ssa.Alloc) bool {
+	if v, ok := escapeCache[a]; ok {
+		return v
+	}
+	escapeCache[a] = true // cycle guard
+	r := addrEscapes(a, 0)
+	escapeCache[a] = r
+	return r
+}
+
+var escapeCache = map[*ssa.Alloc]bool{}
+
+func addrEscapes(v ssa.Value, depth int) bool {
+	if depth > 8 {
+		return true
+	}
+	refs := v.Referrers()
+	if refs == nil {
+		return true
+	}
+	for _, ins := range *refs {
+		switch t := ins.(type) {
+		case *ssa.DebugRef:
+		case *ssa.UnOp: // load
+		case *ssa.Store:
+			if t.Val == v {
+				return true
+			}
+		case *ssa.FieldAddr:
+			if addrEscapes(t, depth+1) {
+				return true
+			}
+		case *ssa.IndexAddr:
+			if addrEscapes(t, depth+1) {
+				return true
+			}
+		case *ssa.MakeClosure:
+			// captured: escapes only if the closure value goes anywhere but a
+			// direct call or a defer
+			if closureEscapes(t) {
+				return true
+			}
+		default:
+			return true
+		}
+	}
+	return false
+}
+
+func closureEscapes(mc *ssa.MakeClosure) bool {
+	refs := mc.Referrers()
+	if refs == nil {
+		return true
+	}
+	for _, ins := range *refs {
+		switch t := ins.(type) {
+		case *ssa.DebugRef:
+		case *ssa.Defer:
+			if t.Call.Value != mc {
+				return true
+			}
+		case *ssa.Call:
+			if t.Call.Value != mc {
+				return true
+			}
+		default:
+			return true
+		}
+	}
+	return false
+}
+
+// storedIn reports whether some store in the given blocks writes through an
+// address derived from a.
+func storedIn(a *ssa.Alloc, blocks map[*ssa.BasicBlock]bool) bool {
+	var derived func(v ssa.Value, depth int) bool
+	derived = func(v ssa.Value, depth int) bool {
+		if depth > 8 {
+			return true
+		}
+		refs := v.Referrers()
+		if refs == nil {
+			return false
+		}
+		for _, ins := range *refs {
+			switch t := ins.(type) {
+			case *ssa.Store:
+				if t.Addr == v && blocks[t.Block()] {
+					return true
+				}
+			case *ssa.FieldAddr:
+				if derived(t, depth+1) {
+					return true
+				}
+			case *ssa.IndexAddr:
+				if derived(t, depth+1) {
+					return true
+				}
+			case *ssa.MakeClosure:
+				// a directly called / deferred closure may write the captured cell
+				fn := t.Fn.(*ssa.Function)
+				for i, b := range t.Bindings {
+					if b == v && i < len(fn.FreeVars) {
+						if anyStoreThrough(fn.FreeVars[i], 0) {
+							return true
+						}
+					}
+				}
+			}
+		}
+		return false
+	}
+	return derived(a, 0)
+}
+
+func anyStoreThrough(v ssa.Value, depth int) bool {
+	if depth > 8 {
+		return true
+	}
+	refs := v.Referrers()
+	if refs == nil {
+		return false
+	}
+	for _, ins := range *refs {
+		switch t := ins.(type) {
+		case *ssa.Store:
+			if t.Addr == v {
+				return true
+			}
+		case *ssa.FieldAddr:
+			if anyStoreThrough(t, depth+1) {
+				return true
+			}
+		case *ssa.IndexAddr:
+			if anyStoreThrough(t, depth+1) {
+				return true
+			}
+		case *ssa.UnOp, *ssa.DebugRef:
+		default:
+			return true
+		}
+	}
+	return false
+}
